@@ -76,7 +76,7 @@ class Elab:
             v = default
         if isinstance(v, (int, float)):
             return "{ds_const=true; ds_min=%s; ds_max=%s; ds_tris=[]; ds_nodes=[]}" % (ml(v), ml(v))
-        s = self.surfaces.get(key)
+        s = self.surfaces.get(key.replace(" ", "_"))
         if s is None:
             self.unsupported = "surface data missing for " + str(key)
             return "{ds_const=true; ds_min=0.0; ds_max=0.0; ds_tris=[]; ds_nodes=[]}"
@@ -300,6 +300,38 @@ class Gen:
 
     def rect(self, x0, y0, x1, y1):
         return [[x0, y0], [x1, y0], [x1, y1], [x0, y1]]
+
+    def interior_point(self, poly):
+        r = self.r
+        cx = sum(c[0] for c in poly) / len(poly)
+        cy = sum(c[1] for c in poly) / len(poly)
+        v = r.choice(poly)
+        t = r.uniform(0.05, 0.8)
+        return [round(cx + t * (v[0] - cx), 3), round(cy + t * (v[1] - cy), 3)]
+
+    def depth_values(self, poly, lo, hi, p_array=1.0):
+        """a depth given as values at points: [[v]] / [[v],[w,[pts]],...] / [[w,[pts]],...]"""
+        r = self.r
+        if r.random() > p_array:
+            return self.num(lo, hi, 0)
+        u = r.random()
+        if u < 0.1:
+            return [[self.num(lo, hi, 0)]]
+        entries = []
+        if u < 0.7:
+            entries.append([self.num(lo, hi, 0)])
+        for _ in range(r.randint(1, 3)):
+            pts = []
+            for _k in range(r.randint(1, 3)):
+                w = r.random()
+                if w < 0.3:
+                    pts.append(list(r.choice(poly)))             # a polygon corner
+                else:
+                    pts.append(self.interior_point(poly))
+            entries.append([self.num(lo, hi, 0), pts])
+        if r.random() < 0.15:
+            entries.append([self.num(lo, hi, 0)])                # a value without points after listed points
+        return entries
 
     def op(self, comp=False):
         return self.r.choice(["replace", "add", "subtract"] + (["replace defined only"] if comp else []))
